@@ -9,7 +9,7 @@
    lo <= hi, at least one grid point, strictly increasing, all inside [lo, hi].
    [nthR i l] is [nth i l 0]. *)
 From Coq Require Import ZArith Reals List Bool.
-From Verif Require Import Base.Num Base.Vec C14.Model C14.Proofs C14.ProofsIndex C14.ProofsUniform C14.ProofsSlice C14.ProofsNd C14.ProofsAxes C14.ProofsFactories C14.ProofsByaxis C14.ProofsList.
+From Verif Require Import Base.Num Base.Vec Gen.Partition C14.Model C14.ProofsGen C14.Proofs C14.ProofsIndex C14.ProofsUniform C14.ProofsSlice C14.ProofsNd C14.ProofsAxes C14.ProofsFactories C14.ProofsByaxis C14.ProofsList.
 Import ListNotations.
 Local Open Scope R_scope.
 
@@ -481,3 +481,61 @@ Print Assumptions fromgrid_explicit_limits_valid.
 Theorem fromgrid_single_point_needs_limits : forall (c : R) (omax : option R),
   fromgrid_axis [c] None omax = ValueErr.
 Proof. exact fromgrid_axis_single. Qed.
+
+(* ------------------------------------------------------------------ *)
+(* TIE TO THE SOURCE.  Gen/Partition.v is REGENERATED from /repo on every run by the fail-closed
+   translator translate/partition.py.  The hand-written model is proved to be built from the
+   generated formulas, so a changed offset, denominator, side or comparison in
+   uniform_grid_fromintv, uniform_partition, boundary_cell_fractions, the midpoint rule, the
+   edge rules of index() or the bounds test of normalized_index_expression breaks a proof here
+   (besides the correspondence). *)
+Theorem model_ugrid_limits_is_the_generated_formula :
+  forall (T : Type) (NT : Num T) (n : Z) (xmin xmax : T) (fl : bool * bool),
+  ugrid_limits n xmin xmax fl = gen_ugrid_limits n xmin xmax (fst fl) (snd fl).
+Proof. exact (@ugrid_limits_is_generated). Qed.
+Print Assumptions model_ugrid_limits_is_the_generated_formula.
+Theorem model_completion_is_the_generated_formulas :
+  forall (rnd : R -> Z) (oxmin oxmax : option R) (on : option Z) (odx : option R) (fl : bool * bool),
+  complete_axis rnd oxmin oxmax on odx fl =
+  match oxmin, oxmax, on, odx with
+  | None, Some xmax, Some n, Some dx => Ok (gen_complete_min 0 xmax n dx (fst fl) (snd fl), xmax, n)
+  | Some xmin, None, Some n, Some dx => Ok (xmin, gen_complete_max xmin 0 n dx (fst fl) (snd fl), n)
+  | Some xmin, Some xmax, None, Some dx =>
+      let n_calc := gen_n_calc xmin xmax 0%Z dx (fst fl) (snd fl) in
+      if neqb (of_Z (rnd n_calc)) n_calc then Ok (xmin, xmax, rnd n_calc) else ValueErr
+  | Some xmin, Some xmax, Some n, None => Ok (xmin, xmax, n)
+  | Some xmin, Some xmax, Some n, Some dx =>
+      if neqb xmax (gen_xmax_calc xmin xmax n dx (fst fl) (snd fl)) then Ok (xmin, xmax, n) else ValueErr
+  | _, _, _, _ => ValueErr
+  end.
+Proof. exact complete_axis_is_generated. Qed.
+Print Assumptions model_completion_is_the_generated_formulas.
+Theorem model_fractions_are_the_generated_formulas : forall ax : axis R, (2 <= length (a_cs ax))%nat ->
+  bdry_fracs ax = (gen_left_frac (a_cs ax) (a_lo ax) (a_hi ax), gen_right_frac (a_cs ax) (a_lo ax) (a_hi ax)).
+Proof. exact bdry_fracs_is_generated. Qed.
+Theorem model_fractions_one_point_are_the_generated_value : forall lo hi c : R,
+  fst (bdry_fracs (mkAxis lo hi [c])) = fst (@gen_frac_single R _) /\
+  snd (bdry_fracs (mkAxis lo hi [c])) = snd (@gen_frac_single R _).
+Proof. exact bdry_fracs_single_is_generated. Qed.
+Theorem model_boundaries_are_the_generated_midpoint_rule : forall ax : axis R, (1 <= length (a_cs ax))%nat ->
+  nthR 0 (bdry_vec ax) = gen_bdry_first (a_lo ax) (a_hi ax) /\
+  nthR (length (a_cs ax)) (bdry_vec ax) = gen_bdry_last (a_lo ax) (a_hi ax) /\
+  forall i, (S i < length (a_cs ax))%nat -> nthR (1 + i) (bdry_vec ax) = gen_bdry_mid (a_cs ax) i.
+Proof. exact bdry_vec_is_generated. Qed.
+Print Assumptions model_boundaries_are_the_generated_midpoint_rule.
+Theorem model_index_is_the_generated_edge_rule : forall (T : Type) (NT : Num T) (ax : axis T) (x : T),
+  index_axis ax x = gen_index (bdry_vec ax) (Z.of_nat (count_lt x (bdry_vec ax))) x.
+Proof. exact (@index_axis_is_generated). Qed.
+Theorem model_floating_index_is_the_generated_rule : forall (T : Type) (NT : Num T) (ax : axis T) (x : T),
+  findex_axis ax x = gen_findex (bdry_vec ax) (Z.of_nat (count_lt x (bdry_vec ax))) x.
+Proof. exact (@findex_axis_is_generated). Qed.
+Print Assumptions model_floating_index_is_the_generated_rule.
+Theorem model_int_bounds_test_is_the_generated_one : forall (its : bool) (i n : Z) (l : list item) (sh : list Z),
+  norm_ints its (IInt i :: l) (n :: sh) =
+  if gen_out_of_bounds (gen_wrap i n) n then IndexErr
+  else bind (norm_ints its l sh) (fun r =>
+         Ok ((if its then ISlice (Some (fst (gen_int_slice (gen_wrap i n))))
+                                 (Some (snd (gen_int_slice (gen_wrap i n)))) None
+              else IInt i) :: r)).
+Proof. exact norm_ints_is_generated. Qed.
+Print Assumptions model_int_bounds_test_is_the_generated_one.
